@@ -37,8 +37,13 @@ func UpdateMessageForChange(changedFile string) (string, string, string) {
 			oldLastChanged = strings.TrimPrefix(oldLastChanged, "/")
 		}
 
+		var newLastChanged = changed[4]
+		if changed[3] == "" {
+			newLastChanged = strings.TrimPrefix(newLastChanged, "/")
+		}
+
 		oldFileName = changed[1] + changed[2] + oldLastChanged
-		newFileName = changed[1] + changed[3] + changed[4]
+		newFileName = changed[1] + changed[3] + newLastChanged
 
 		changedFile = newFileName
 	}
